@@ -1,0 +1,171 @@
+//go:build verif
+
+package spiffe
+
+// Contracts for govc (contract-based deductive verification; see /verif/DESIGN.md, property C19).
+// This file holds only comments and is compiled only with -tags verif.
+//
+// chdone[c] is the monotone ghost "channel c is known to be closed" (channels are never reopened): set where this
+// package closes a channel, and where a receive from a channel nobody sends on has returned.
+// initok is the monotone ghost "the initial fetch succeeded and its SVID was published": set by Run together with the
+// first store to currentSVID, never reset. Time is unixNano(t), a mathematical integer (libspec strings_time.spec).
+//
+// Proved for all interleavings of lock-respecting goroutines (monitor rule on s.lock): the sequential laws below and
+// the lock discipline. The wait-order obligation C19.ready.nolock FAILS in GetX509SVID on the unchanged code: that is
+// the confirmed deadlock "consumer asks before Run has taken its lock" (replay template spiffeready).
+// Wall-clock timeliness (when a timer channel delivers, how soon the rotation goroutine is scheduled) is outside this
+// technique family: the contracts state which duration is handed to the clock and what happens after a wake-up, not when.
+
+//@ ghost var chdone [int]bool
+
+//@ type SPIFFE
+//@   ghost initok bool
+//@   lock lock protects currentSVID
+//@   lockinv lock [C19.inv.notready] !chdone[self.readyCh] ==> self.currentSVID == nil
+//@   lockinv lock [C19.inv.served] self.initok ==> self.currentSVID != nil
+//@   lockinv lock [C19.inv.chain] self.currentSVID != nil ==> (len(self.currentSVID.Certificates) > 0 && self.currentSVID.Certificates[0] != nil)
+//@   invariant [cfg] self.log != nil && self.clock != nil && (self.dir != nil ==> self.trustAnchors != nil)
+
+// The caller-supplied signer: assumed to leave all memory reachable by this package alone and to return non-nil
+// certificates when it reports success.
+//@ func functype github.com/dapr/kit/crypto/spiffe.RequestSVIDFn
+//@   skip
+//@   modifies nothing
+//@   ensures result1 == nil ==> (forall j :: 0 <= j && j < len(result) ==> result[j] != nil)
+
+// renewalTime: half of the validity period (for a validity within the range of time.Duration, ~292 years).
+//@ func renewalTime
+//@   tags C19 C07
+//@   modifies nothing
+//@   ensures [C19.renewal.half] (0 <= unixNano(notAfter) - unixNano(notBefore) && unixNano(notAfter) - unixNano(notBefore) <= 9223372036854775807) ==> unixNano(result) == unixNano(notBefore) + (unixNano(notAfter) - unixNano(notBefore)) / 2
+
+// GetX509SVID: a goroutine must not block on readyCh while holding the lock that Run needs in order to close it.
+// FAILS on the unchanged code (genuine defect, see header). After readiness: the SVID served is currentSVID as read
+// under the read lock, nil exactly when an error is returned.
+//@ func (*svidSource).GetX509SVID
+//@   tags C19 C07
+//@   requires s != nil && s.spiffe != nil
+//@   ensures [C19.get.svid] result == at(R, s.spiffe.currentSVID)
+//@   ensures [C19.get.err] (result == nil) <==> (result1 != nil)
+//@   ensures [C19.get.ready] chdone[s.spiffe.readyCh]
+//@   ensures [C19.get.initok] s.spiffe.initok ==> (result != nil && result1 == nil)
+//@   at recv#0 assert [C19.ready.nolock] chdone[s.spiffe.readyCh] || !held(s.spiffe.lock)
+//@   at recv#0 ghost chdone = update(chdone, s.spiffe.readyCh, true)
+//@   at recv#0 label R
+//@   replay template spiffeready
+//@   replay val ready = chdone[s.spiffe.readyCh]
+
+//@ func (*SPIFFE).Ready
+//@   tags C19 C07
+//@   ghost sel int
+//@   requires s != nil && ctx != nil
+//@   modifies chdone
+//@   ensures [C19.ready.ok] sel == 1 ==> (result == nil && chdone[s.readyCh])
+//@   at select#0 assert [C19.ready.nolock] chdone[s.readyCh] || !held(s.lock)
+//@   at select#0 ghost sel = res0
+//@   at select#0 ghost chdone = res0 == 1 ? update(chdone, s.readyCh, true) : chdone
+
+// fetchIdentityCertificate: the key is generated in this activation and is the one the CSR is signed with, the one
+// that is PEM-encoded and the one in the returned SVID; when a dir is configured the map handed to dir.Write is
+// exactly {key.pem, cert.pem, ca.pem} built from this activation's key, the chain just received and the trust
+// anchors just read; an empty chain is an error. currentSVID is not touched (it is lock-protected and no lock is taken).
+//@ func (*SPIFFE).fetchIdentityCertificate
+//@   tags C19 C07
+//@   ghost gkey ref
+//@   ghost gchain slice
+//@   ghost gpk slice
+//@   ghost gcert slice
+//@   ghost gca slice
+//@   requires s != nil && inv(s) && ctx != nil
+//@   requires s.dir != nil ==> (invexcept(s.dir, "live") && fsCI(fsExists, fsIsLink, fsLink, fsIsDir, fsComplete, s.dir.target, s.dir.base))
+//@   modifies fsExists, fsIsLink, fsLink, fsIsDir, fsSrc, fsComplete, s.dir.prev
+//@   ensures [C19.fetch.err] result1 != nil ==> result == nil
+//@   ensures [C19.fetch.ok] result1 == nil ==> (result != nil && fresh(result) && len(result.Certificates) > 0 && result.Certificates[0] != nil)
+//@   ensures [C19.fetch.key] result1 == nil ==> (fresh(gkey) && result.PrivateKey == box(gkey, "*crypto/ecdsa.PrivateKey") && result.Certificates == gchain)
+//@   ensures [C19.fetch.dir] s.dir != nil ==> (invexcept(s.dir, "live") && fsCI(fsExists, fsIsLink, fsLink, fsIsDir, fsComplete, s.dir.target, s.dir.base))
+//@   ensures [C19.fetch.dirinv] (s.dir != nil && result1 == nil) ==> inv(s.dir)
+//@   at call ecdsa.GenerateKey#0 ghost gkey = res0
+//@   at before call x509.CreateCertificateRequest#0 assert [C19.fetch.csr.key] arg2 == box(gkey, "*crypto/ecdsa.PrivateKey")
+//@   at call RequestSVIDFn#0 ghost gchain = res0
+//@   at before call RequestSVIDFn#0 assert [C19.fetch.csr.sent] arg1 == call_CreateCertificateRequest_0_csr
+//@   at before call pem.EncodePrivateKey#0 assert [C19.fetch.pem.key] arg0 == box(gkey, "*crypto/ecdsa.PrivateKey")
+//@   at call pem.EncodePrivateKey#0 ghost gpk = res0
+//@   at before call pem.EncodeX509Chain#0 assert [C19.fetch.pem.chain] arg0 == gchain
+//@   at call pem.EncodeX509Chain#0 ghost gcert = res0
+//@   at call CurrentTrustAnchors#0 ghost gca = res0
+//@   at before call Write#0 assert [C19.fetch.fileset] len(arg1) == 3 && haskey(arg1, "key.pem") && haskey(arg1, "cert.pem") && haskey(arg1, "ca.pem")
+//@        && arg1["key.pem"] == gpk && arg1["cert.pem"] == gcert && arg1["ca.pem"] == gca
+//@   at before call Write#0 assume psimple("key.pem") && psimple("cert.pem") && psimple("ca.pem")
+
+// Run: the goroutine that wins the CAS closes readyCh exactly once, on both paths, before it releases the write
+// lock; currentSVID is written iff the fetch succeeded; otherwise the (wrapped) error is returned.
+//@ func (*SPIFFE).Run
+//@   tags C19 C07
+//@   ghost ncl int
+//@   ghost ferr bool
+//@   requires s != nil && inv(s) && ctx != nil
+//@   requires s.running.v == 0 ==> !chdone[s.readyCh]
+//@   requires s.dir != nil ==> (invexcept(s.dir, "live") && fsCI(fsExists, fsIsLink, fsLink, fsIsDir, fsComplete, s.dir.target, s.dir.base))
+//@   ensures [C19.run.second] old(s.running.v) != 0 ==> (result != nil && chdone == old(chdone))
+//@   ensures [C19.run.once] old(s.running.v) == 0 ==> (ncl == 1 && chdone[s.readyCh])
+//@   ensures [C19.run.err] (old(s.running.v) == 0 && ferr) ==> (result != nil && at(U, s.currentSVID) == nil && !s.initok == !old(s.initok))
+//@   ensures [C19.run.ok] (old(s.running.v) == 0 && !ferr) ==> (result == nil && s.initok)
+//@   at call CompareAndSwap#0 ghost ncl = 0
+//@   at call Lock#0 label L
+//@   at call fetchIdentityCertificate#0 ghost ferr = res1 != nil
+//@   at close#0 assert [C19.run.close.fresh] !chdone[s.readyCh] && heldw(s.lock) && ncl == 0
+//@   at close#0 ghost chdone = update(chdone, s.readyCh, true)
+//@   at close#0 ghost ncl = ncl + 1
+//@   at close#1 assert [C19.run.close.fresh] !chdone[s.readyCh] && heldw(s.lock) && ncl == 0
+//@   at close#1 ghost chdone = update(chdone, s.readyCh, true)
+//@   at close#1 ghost ncl = ncl + 1
+//@   at store currentSVID#0 assert [C19.run.publish] !ferr && arg0 == call_fetchIdentityCertificate_0_result
+//@   at store currentSVID#0 ghost s.initok = true
+//@   at before call Unlock#0 label U
+//@   at before call Unlock#0 assert [C19.run.closed.before.unlock] chdone[s.readyCh] && ncl == 1 && ferr && s.currentSVID == at(L, s.currentSVID)
+//@   at before call Unlock#1 assert [C19.run.closed.before.unlock] chdone[s.readyCh] && ncl == 1 && !ferr && s.currentSVID == call_fetchIdentityCertificate_0_result
+
+// runRotation (select = nondeterministic choice). gnow is the clock reading the wait was computed from, woke the
+// reading after a wake-up. due: a wake-up found now >= renewTime and no fetch has been requested yet; owed: a fetch
+// failed and the 10 s wait has not been armed yet. Both are false at every loop head and at every return.
+//@ func (*SPIFFE).runRotation
+//@   tags C19 C07
+//@   ghost gnow int
+//@   ghost due bool
+//@   ghost owed bool
+//@   requires s != nil && inv(s) && ctx != nil && s.initok && chdone[s.readyCh]
+//@   requires s.dir != nil ==> (invexcept(s.dir, "live") && fsCI(fsExists, fsIsLink, fsLink, fsIsDir, fsComplete, s.dir.target, s.dir.base))
+//@   modifies fsExists, fsIsLink, fsLink, fsIsDir, fsSrc, fsComplete, s.dir.prev, s.currentSVID
+//@   at call RLock#0 ghost due = false
+//@   at call RLock#0 ghost owed = false
+//@   loop 0 invariant s == old(s) && ctx == old(ctx) && inv(s) && s.initok && chdone[s.readyCh] && nolocks() && cert != nil
+//@   loop 0 invariant s.dir != nil ==> (invexcept(s.dir, "live") && fsCI(fsExists, fsIsLink, fsLink, fsIsDir, fsComplete, s.dir.target, s.dir.base))
+//@   loop 0 invariant [C19.rotate.pending] !due && !owed
+//@   loop 0 invariant [C19.rotate.together] (0 <= unixNano(*cert.NotAfter) - unixNano(*cert.NotBefore) && unixNano(*cert.NotAfter) - unixNano(*cert.NotBefore) <= 9223372036854775807) ==> unixNano(renewTime) == unixNano(*cert.NotBefore) + (unixNano(*cert.NotAfter) - unixNano(*cert.NotBefore)) / 2
+//@   at call Now#0 ghost gnow = unixNano(res0)
+//@   at before call After#0 assert [C19.rotate.wait] (-9223372036854775808 <= unixNano(renewTime) - gnow && unixNano(renewTime) - gnow <= 9223372036854775807) ==> arg1 == min(60000000000, unixNano(renewTime) - gnow)
+//@   at call Before#0 ghost due = !res0
+//@   at call Before#0 assert [C19.rotate.due] due <==> unixNano(arg0) >= unixNano(renewTime)
+//@   at before call fetchIdentityCertificate#0 assert [C19.rotate.fetch.when] due && !held(s.lock)
+//@   at call fetchIdentityCertificate#0 ghost due = false
+//@   at call fetchIdentityCertificate#0 ghost owed = res1 != nil
+//@   at before call After#1 assert [C19.rotate.retry] owed && arg1 == 10000000000
+//@   at call After#1 ghost owed = false
+//@   at before call Lock#0 assert [C19.rotate.publish.ok] !owed && call_fetchIdentityCertificate_0_result1 == nil
+//@   at store currentSVID#0 assert [C19.rotate.publish] heldw(s.lock) && !owed && arg0 == call_fetchIdentityCertificate_0_result && arg0 != nil
+//@   at before call Unlock#0 assert [C19.rotate.together.locked] s.currentSVID == call_fetchIdentityCertificate_0_result && cert == s.currentSVID.Certificates[0]
+//@   at return assert [C19.rotate.pending.exit] !due && !owed
+
+//@ func (*SPIFFE).SVIDSource
+//@   tags C19 C07
+//@   modifies nothing
+//@   ensures result != nil
+
+//@ func New
+//@   tags C19 C07
+//@   requires opts.Log != nil
+//@   requires opts.WriteIdentityToFile != nil ==> (pclean(*opts.WriteIdentityToFile) && psimple(pbase(*opts.WriteIdentityToFile)) && opts.TrustAnchors != nil)
+//@   ensures [C19.new] result != nil && fresh(result) && inv(result) && result.currentSVID == nil && result.running.v == 0 && !result.initok && !chdone[result.readyCh]
+//@   ensures [C19.new.dir] result.dir != nil ==> inv(result.dir)
+//@   at store readyCh#0 ghost chdone = update(chdone, arg0, false)
+//@   at return ghost result.initok = false
